@@ -13,7 +13,10 @@ Layers:
     Counted separately in the evidence (`pos-in-user-snippet`).
   * CORRESPONDENCE: outcome class of the extracted Coq model `expand_markup_str` (Ok | ParseErr kind pos |
     Internal | OutOfFuel) == outcome class of the implementation (incl. error kind and position) on every case
-    the model covers (BEM configurations included; not lorem).  Output TEXT equality is recorded as a statistic only.
+    the model covers (BEM and markup.href configurations included; not lorem), and the output TEXT is equal as well.
+  * markup.href (coq/model/MarkupHref.v, insert_href in coq/model/MarkupConvert.v): harness/href_util.py compares the
+    matchers with the compiled regex objects, insert_href with the real one, and the FULL expand() output / callback
+    events on URL / e-mail like wrap texts.
   * BEM addon (coq/model/MarkupBem.v): harness/bem_util.py compares the FULL expand() output of model and
     implementation on exhaustive class-name strings over nested elements, with/without context, custom separators.
   * deep-nesting probe (fresh interpreter, default recursion limit): the two inputs of DESIGN §5 C07.
@@ -275,6 +278,22 @@ def oracle(abbr, cfg, r):
     if r[0] == 'recursion':
         return 'expand raised RecursionError (nesting far below the documented deep-nesting finding)'
     return 'expand raised %s (not one of the two parse errors)' % r[1]
+
+
+def _cased_non_ascii(x):
+    return isinstance(x, str) and any(ord(c) > 127 and c.lower() != c.upper() for c in x)
+
+
+def case_mapping_outside_model(abbr, cfg):
+    """output.tagCase / output.attributeCase applied to a cased non-ASCII letter: str.upper()/lower() of the
+    implementation is Unicode-aware, the model's is exact on ASCII only (stated limit, DESIGN section 2)."""
+    o = cfg.get('options') or {}
+    if not (o.get('output.tagCase') or o.get('output.attributeCase')):
+        return False
+    parts = [abbr] + list((cfg.get('snippets') or {}).values()) + list((cfg.get('variables') or {}).values())
+    t = cfg.get('text')
+    parts += t if isinstance(t, list) else [t]
+    return any(_cased_non_ascii(x) for x in parts)
 
 
 def klass(r):
@@ -624,10 +643,14 @@ def run_markup(ctx, model_ok=True):
                  'C07_parser_output_convertible', 'C07_bem_safe (BEM addon never raises: all nodes, paths, cache states, separators, contexts)',
                  'C07_transform_safe (transform pass incl. BEM is total)',
                  'C07_expand_safe (markup model, all inputs, all configurations with wf snippet table, bem.enabled included)',
-                 'C07_expand_safe_any_table (malformed user snippets: position inside the snippet text)'],
+                 'C07_expand_safe_any_table (malformed user snippets: position inside the snippet text)',
+                 'props/Href.v (markup.href model extension): Href_url_matcher / Href_email_matcher / Href_proto_matcher (matcher = '
+                 'denotation of its regex, all strings), Href_value, Href_value_nonempty, Href_attrs_spec, Href_never_overwrites, '
+                 'Href_written_only_when_empty, Href_text_as_by_insert_text, Href_off_is_href_free_converter (porting lemma), '
+                 'Href_converter_cases, Href_same_outcome (markup.href adds no failure), Href_deepest_last_element'],
         'partial': [],
         'by_construction': ['formatters return plain values (no res, no fuel): proofs/SafeFormat.v'],
-        'not_in_model(implementation oracle only)': ['lorem text generation', 'markup.href rewriting',
+        'not_in_model(implementation oracle only)': ['lorem text generation',
                                                      'user callbacks other than the identity', 'CPython recursion limit (known finding)'],
     }
     # ---- correspondence with the extracted model
@@ -669,13 +692,30 @@ def run_markup(ctx, model_ok=True):
                     ctx.broken.append({'kind': 'correspondence', 'file': 'markup-expand-class', 'input': abbr,
                                        'config': canon_cfg(cfg), 'impl': repr(im)[:300], 'model': repr(mo)[:300]})
         elif mo[0] == 'ok' and mo[1] != im[1]:
+            # the model covers every converter feature (markup.href included): the output text must agree as well
+            if case_mapping_outside_model(abbr, cs.cfgs[ci]):
+                # DESIGN section 2: lower/upper are exact on ASCII and the identity elsewhere in the model
+                ctx.cover('markup:not-text-compared(tagCase/attributeCase with cased non-ASCII letters)')
+                continue
+            if 'Lorem' in mo[1]:
+                # a lorem name assembled by an escape / a variable (`lor\\em5`): the model wrote its marker for the random text
+                ctx.cover('markup:not-compared(lorem, seen in the model output)')
+                continue
             text_diff += 1
-    ctx.cov['correspondence']['markup_expand_outcome_class'] = {
-        'cases': len(wires), 'disagreements': dis,
-        'output_text_differs(statistic only; not the observable of C07)': text_diff}
+            if text_diff <= 12:
+                cfg = cs.cfgs[ci]
+                ctx.say('DISAGREE markup expand output %r cfg=%s\n  impl  %r\n  model %r' % (abbr, canon_cfg(cfg), str(im)[:300], str(mo)[:300]))
+            if text_diff <= 5:
+                ctx.broken.append({'kind': 'correspondence', 'file': 'markup-expand-output', 'input': abbr,
+                                   'config': canon_cfg(cfg), 'impl': repr(im)[:300], 'model': repr(mo)[:300]})
+    ctx.cov['correspondence']['markup_expand_outcome_class_and_output'] = {
+        'cases': len(wires), 'disagreements': dis, 'output_text_disagreements': text_diff}
     # ---- BEM addon: full output, model vs implementation (harness/bem_util.py)
     import bem_util
     bem_util.run_bem(ctx, model)
+    # ---- markup.href: matchers, insert_href and the full output / callback events (harness/href_util.py)
+    import href_util
+    href_util.run_href(ctx, model)
 
 
 def replay_markup(ctx, obj):
@@ -684,6 +724,9 @@ def replay_markup(ctx, obj):
         r = run_probe(rp['expr'])
         print('probe %s -> %s' % (rp['expr'], r))
         return 0 if r == 'ok' else 1
+    if rp.get('component') in ('href', 'href-events'):
+        import href_util
+        return href_util.replay_href(rp)
     if rp.get('component') != 'markup':
         return None
     abbr, cfg = rp['abbr'], rp.get('config') or {}
